@@ -31,6 +31,10 @@ func NewCollector(db objects.Store, baseT *objects.Table, discardedRow *index.Ha
 		return nil, err
 	}
 	s.PK = baseT.PK
+	if len(baseT.PK) == 0 {
+		// without a primary key the whole row is the key: the sorter needs the column list for that
+		s.Columns = append(s.Columns, baseT.Columns...)
+	}
 	c := &RowCollector{
 		db:            db,
 		discardedRows: discardedRow,
